@@ -103,3 +103,21 @@ Theorem C20_shown_duplicates_below_134 :
 Proof. exact c20c_shown_duplicates_below_134. Qed.
 Print Assumptions C20_shown_duplicates_below_134.
 
+
+(* ------------------------------------------------------------------------------------------------------------------
+   End to end (Proofs/C03z.v), for the code model in any state reached by requests: no hypothesis but the answer itself. *)
+(* limit=n keeps the first min(n, |a|) allocation requests, with covering summaries taken from the unlimited answer *)
+From PV Require Import Spec.CandSpec Proofs.Defs Model.Parse Model.DecodeQ Model.DecodeQC.
+From PV Require Import Proofs.C02 Proofs.C02m Proofs.C02c Proofs.C03s Proofs.C03c Proofs.C03q Proofs.C03u Proofs.C03uq Proofs.C03w
+                       Proofs.C03x Proofs.C02s Proofs.C20c Proofs.C13q Proofs.C03z.
+Theorem C20_end_to_end : forall cf l v q a s n,
+  candidates v q (run cf db0 l) = COk a s -> qy_limit q = Some n ->
+  16 <= v /\ 1 <= n /\
+  exists kept sums', candidates_limited v q (run cf db0 l) = COk kept sums' /\
+    kept = firstn (Z.to_nat n) a /\ lenZ kept = Z.min n (lenZ a) /\ incl kept a /\
+    (34 <= v -> distinct kept) /\
+    (forall c x, In c kept -> In x (cr_rrs c) ->
+       exists r, find_rp (run cf db0 l) (rr_rp x) = Some r /\ In (psum_view v q (summary_of (run cf db0 l) r)) sums') /\
+    incl sums' s.
+Proof. exact c20_end_to_end. Qed.
+Print Assumptions C20_end_to_end.
